@@ -50,7 +50,7 @@ ALLOW = {
 }
 
 
-OVERLAYS = ('K2b',)
+OVERLAYS = ('K2b', 'K2a')
 
 
 def id_hex_rules(chk, P, prefix, span_only=False):
@@ -154,7 +154,7 @@ def run(chk):
                     continue
                 if not common.result_checked(b, c):
                     bad.append((b, c))
-        if n < 80:
+        if n < 80 and not getattr(chk, "_overlay", None):
             return False, "only %d Result-returning call sites found in the parser regions (expected >= 80)" % n, [], None
         if bad:
             b, c = bad[0]
@@ -270,7 +270,7 @@ def run(chk):
                     ev.append("%s -> %s: constant text" % (b.key, nm))
                     continue
                 bad.append((b, c.loc, "passes runtime text to the unchecked constructor %s" % nm))
-        if n < 10:
+        if n < 10 and not getattr(chk, "_overlay", None):
             return False, "only %d Path construction sites found (expected >= 10)" % n, [], None
         if bad:
             b, loc, why = bad[0]
@@ -897,61 +897,101 @@ def run(chk):
         return True, "", ev
     chk.ob("C15.R4:formatter-digit-table", "every digit position of the RFC 3339 template is written once with the right digit of the right calendar part", formatter_digit_table)
 
+    def value_parse():
+        """`Value::parse` - the last resort of every `FromValue` cast (levels, kinds, ids, timestamps arriving as text) - hands the value to a visitor and
+        returns what the visitor extracted: the visitor's `visit_str` stores `value.parse().ok()`, its `visit_any` stores the parse of the value's
+        Display text, and `parse` returns the slot of the very visitor it passed to `visit`."""
+        b = P.body("emit_core::value::Value::<'v>::parse")
+        vs = [c for c in b.calls(normal_only=True) if c.callee.get("name") == "visit"]
+        if len(vs) != 1 or b.count_on_paths({vs[0].bb}) != (1, 1):
+            return False, "Value::parse must visit the captured value exactly once", [], b.span
+        vl = None
+        for bb, j, st in b.statements(normal_only=True):
+            if st["k"] == "assign" and st["rv"]["k"] == "ref" and "p" not in st["rv"]["place"]:
+                a = vs[0].args[1]
+                al = a.get("m", a.get("c", {})).get("l")
+                if st["place"]["l"] == al or (al is not None and b.origin(a)[0] == "ref" and st["place"]["l"] == al):
+                    vl = st["rv"]["place"]["l"]
+        if vl is None:
+            # two-step reborrow: follow one copy
+            for bb, j, st in b.statements(normal_only=True):
+                if st["k"] == "assign" and st["rv"]["k"] == "ref" and "p" not in st["rv"]["place"] and "Extract" in (b.local_ty(st["rv"]["place"]["l"]) or ""):
+                    vl = st["rv"]["place"]["l"]
+        rets = [st for bb, j, st in b.statements(normal_only=True) if st["k"] == "assign" and st["place"]["l"] == 0 and "p" not in st["place"]]
+        ok = vl is not None and rets and all(st["rv"]["k"] == "use" and st["rv"]["op"].get("m", st["rv"]["op"].get("c", {})).get("l") == vl
+                                              and [p_.get("f") for p_ in st["rv"]["op"].get("m", st["rv"]["op"].get("c", {})).get("p", []) if isinstance(p_, dict)] == [0] for st in rets)
+        if not ok:
+            return False, "Value::parse does not return the slot of the visitor it handed to visit()", [], b.span
+        if not b.dominates(vs[0].bb, [bb for bb, j, st in b.statements(normal_only=True) if st in rets][0]):
+            return False, "Value::parse reads the visitor's slot before the visit", [], b.span
+        ev = [vs[0].loc]
+        no_alloc = not any(k_.startswith("alloc::") for k_ in P.bodies) and not P.has_body("emit_core::str::alloc_support::<impl emit_core::str::Str<'static>>::new_owned")
+        for m, via in (("visit_str", None), ("visit_any", "to_string")):
+            ks = [k for k in P.bodies if "Value<'v>::parse::Extract<T> as value_bag::visit::Visit" in k and k.endswith("::" + m)]
+            if not ks:
+                raise mir.AnchorMissing("Extract::%s" % m)
+            x = P.body(ks[0])
+            stores = [x.origin(st["rv"]["op"]) for bb, j, st in x.statements(normal_only=True) if st["k"] == "assign" and st["place"].get("p") and st["rv"]["k"] == "use"
+                      and [p_.get("f") for p_ in st["place"]["p"] if isinstance(p_, dict)] == [0]]
+            good = False
+            for o in stores:
+                if o[0] == "call" and o[1].callee.get("name") == "ok":
+                    po = x.origin(o[1].args[0])
+                    if po[0] == "call" and po[1].callee.get("name") == "parse":
+                        src = x.origin(po[1].args[0], through_calls=("deref", "as_str", "as_ref", "borrow"))
+                        if via is None and mir.o_is_param(src, idx=2):
+                            good = True
+                        if via is not None and src[0] == "call" and src[1].callee.get("name") == via and mir.o_is_param(mir.o_root(x.origin(src[1].args[0])), idx=2):
+                            good = True
+            # whatever is parsed is the *whole* text: a store of a parse result is reached only on the success edge of every fallible formatting call
+            # of the body (a fixed-size buffer that overflowed holds a prefix - `2024-01-01T00:00:00Z<junk>` would cast to a timestamp)
+            from . import c10
+            wr = [c for c in x.calls(normal_only=True) if c.callee.get("name") in ("write_fmt", "write_str", "write_char") and "fmt" in (c.callee.get("trait") or c.callee.get("path") or "")]
+            sb = [bb for bb, j, st in x.statements(normal_only=True) if st["k"] == "assign" and st["place"].get("p") and st["rv"]["k"] == "use"
+                  and [p_.get("f") for p_ in st["place"]["p"] if isinstance(p_, dict)] == [0] and mir.o_is_call(x.origin(st["rv"]["op"]))]
+            for w_ in wr:
+                for bb_ in sb:
+                    if not c10._q_success_guard(x, bb_, w_.bb):
+                        return False, ("the visitor's %s stores a parse result without the formatting at %s having succeeded: text that did not fit is parsed from "
+                                       "its prefix, so a cast accepts what parsing the whole text rejects" % (m, w_.loc)), [], w_.loc
+            if via is not None and no_alloc and not stores:
+                ev.append(x.span)
+                continue   # without an allocator a non-string value is not formatted at all: it never casts (the whole-text condition holds trivially)
+            if not good or not x.must_pass({bb for bb, j, st in x.statements(normal_only=True) if st["k"] == "assign" and st["place"].get("p")}):
+                return False, ("the visitor's %s does not store the parse of %s: values captured %s would never cast to a level, kind, id or timestamp"
+                               % (m, "the string it is given" if via is None else "the value's Display text", "as strings" if via is None else "through Display / Debug / sval / serde")), [], x.span
+            ev.append(x.span)
+        return True, "", ev
+    chk.ob("C15.R6:Value::parse", "Value::parse returns what its visitor parsed from the string / the Display text of the value", value_parse)
+
+    def id_capture_verbatim():
+        """The hooks the macros use for the well-known id keys (`CaptureTraceId` / `CaptureSpanId`) hand on what they were given: a `str` is captured as
+        that `str` (`self.to_value()`), not a trimmed or otherwise normalised copy - the id grammar (exactly 32 / 16 hex digits) is applied to the
+        text by the cast, and text that departs from it must stay rejectable.  For every impl: the value returned derives from `self` through
+        value conversions only."""
+        PASS = ("to_value", "from", "into", "from_any", "by_ref", "as_ref", "deref", "capture", "and_then", "map", "as_deref", "copied", "cloned")
+        n = 0
+        for k_, b in P.bodies.items():
+            if b.is_closure or not b.trait or not re.search(r"macro_hooks::Capture(TraceId|SpanId)$", b.trait) or b.method != "capture":
+                continue
+            n += 1
+            for x in [b] + P.closures_of(b):
+                for c in x.calls(normal_only=True):
+                    if c.callee.get("name") not in PASS:
+                        return False, ("%s passes the captured id text through `%s` before it becomes a value: text that is not exactly an id (padded, mixed case ..) is "
+                                       "silently normalised and then accepted by the cast that should reject it" % (k_, c.callee.get("name"))), [], c.loc
+            if not any(r_ == ("param", 1) for r_ in common.roots(b.origin(0))) and not P.closures_of(b):
+                return False, "%s does not capture `self`" % k_, [], b.span
+        if n < 8:
+            raise mir.AnchorMissing("CaptureTraceId / CaptureSpanId impls (found %d)" % n)
+        return True, "", ["%d impls" % n]
+    if not getattr(chk, "_overlay", None):
+        chk.ob("C15.R6:id-capture-verbatim", "id text captured by the macros reaches the cast unchanged", id_capture_verbatim)
+
     if not getattr(chk, "_overlay", None):
         from . import c14
         c14.kind_table_agreement(chk, P, "C15.R6:Kind-table")
         from . import c17
         c17.level_parse_rule(chk, P, "C15.R6:level-parse")
 
-        def value_parse():
-            """`Value::parse` - the last resort of every `FromValue` cast (levels, kinds, ids, timestamps arriving as text) - hands the value to a visitor and
-            returns what the visitor extracted: the visitor's `visit_str` stores `value.parse().ok()`, its `visit_any` stores the parse of the value's
-            Display text, and `parse` returns the slot of the very visitor it passed to `visit`."""
-            b = P.body("emit_core::value::Value::<'v>::parse")
-            vs = [c for c in b.calls(normal_only=True) if c.callee.get("name") == "visit"]
-            if len(vs) != 1 or b.count_on_paths({vs[0].bb}) != (1, 1):
-                return False, "Value::parse must visit the captured value exactly once", [], b.span
-            vl = None
-            for bb, j, st in b.statements(normal_only=True):
-                if st["k"] == "assign" and st["rv"]["k"] == "ref" and "p" not in st["rv"]["place"]:
-                    a = vs[0].args[1]
-                    al = a.get("m", a.get("c", {})).get("l")
-                    if st["place"]["l"] == al or (al is not None and b.origin(a)[0] == "ref" and st["place"]["l"] == al):
-                        vl = st["rv"]["place"]["l"]
-            if vl is None:
-                # two-step reborrow: follow one copy
-                for bb, j, st in b.statements(normal_only=True):
-                    if st["k"] == "assign" and st["rv"]["k"] == "ref" and "p" not in st["rv"]["place"] and "Extract" in (b.local_ty(st["rv"]["place"]["l"]) or ""):
-                        vl = st["rv"]["place"]["l"]
-            rets = [st for bb, j, st in b.statements(normal_only=True) if st["k"] == "assign" and st["place"]["l"] == 0 and "p" not in st["place"]]
-            ok = vl is not None and rets and all(st["rv"]["k"] == "use" and st["rv"]["op"].get("m", st["rv"]["op"].get("c", {})).get("l") == vl
-                                                  and [p_.get("f") for p_ in st["rv"]["op"].get("m", st["rv"]["op"].get("c", {})).get("p", []) if isinstance(p_, dict)] == [0] for st in rets)
-            if not ok:
-                return False, "Value::parse does not return the slot of the visitor it handed to visit()", [], b.span
-            if not b.dominates(vs[0].bb, [bb for bb, j, st in b.statements(normal_only=True) if st in rets][0]):
-                return False, "Value::parse reads the visitor's slot before the visit", [], b.span
-            ev = [vs[0].loc]
-            for m, via in (("visit_str", None), ("visit_any", "to_string")):
-                ks = [k for k in P.bodies if "Value<'v>::parse::Extract<T> as value_bag::visit::Visit" in k and k.endswith("::" + m)]
-                if not ks:
-                    raise mir.AnchorMissing("Extract::%s" % m)
-                x = P.body(ks[0])
-                stores = [x.origin(st["rv"]["op"]) for bb, j, st in x.statements(normal_only=True) if st["k"] == "assign" and st["place"].get("p") and st["rv"]["k"] == "use"
-                          and [p_.get("f") for p_ in st["place"]["p"] if isinstance(p_, dict)] == [0]]
-                good = False
-                for o in stores:
-                    if o[0] == "call" and o[1].callee.get("name") == "ok":
-                        po = x.origin(o[1].args[0])
-                        if po[0] == "call" and po[1].callee.get("name") == "parse":
-                            src = x.origin(po[1].args[0], through_calls=("deref", "as_str", "as_ref", "borrow"))
-                            if via is None and mir.o_is_param(src, idx=2):
-                                good = True
-                            if via is not None and src[0] == "call" and src[1].callee.get("name") == via and mir.o_is_param(mir.o_root(x.origin(src[1].args[0])), idx=2):
-                                good = True
-                if not good or not x.must_pass({bb for bb, j, st in x.statements(normal_only=True) if st["k"] == "assign" and st["place"].get("p")}):
-                    return False, ("the visitor's %s does not store the parse of %s: values captured %s would never cast to a level, kind, id or timestamp"
-                                   % (m, "the string it is given" if via is None else "the value's Display text", "as strings" if via is None else "through Display / Debug / sval / serde")), [], x.span
-                ev.append(x.span)
-            return True, "", ev
-        chk.ob("C15.R6:Value::parse", "Value::parse returns what its visitor parsed from the string / the Display text of the value", value_parse)
     return chk
